@@ -571,7 +571,7 @@ static void mode_tunnel(int argc, char **argv) {
     static const int STAT[] = { 200, 204, 101, 407, 403, 500 };
     static hx_buf q, r;
     for (int reqkind = 0; reqkind < 2; reqkind++)            /* 0 CONNECT, 1 GET with Upgrade */
-    for (size_t si = 0; si < 6; si++) for (int payload = 0; payload < 3; payload++) for (int body = 0; body < 2; body++) {
+    for (size_t si = 0; si < 6; si++) for (int payload = 0; payload < 4; payload++) for (int body = 0; body < 2; body++) {
         int status = STAT[si];
         if (reqkind == 1 && status != 101) continue;          /* the upgrade exchange is only about 101 */
         int twoxx = status >= 200 && status < 300;
@@ -582,17 +582,18 @@ static void mode_tunnel(int argc, char **argv) {
         size_t head = q.n;
         if (payload == 1) hb_puts(&q, "GET /t1 HTTP/1.1\r\nHost: h\r\n\r\nGET /t2 HTTP/1.1\r\nHost: h\r\n\r\n");
         else if (payload == 2) hb_put(&q, "\x16\x03\x01\x00\x2e\x01\x00\x00\x2a\x03\x03\n\x00\xff", 14);
+        else if (payload == 3) hb_put(&q, "\x16\x03\x01\x00\x2e\x01\x00\x00\x2a\x03\x03\x07\x00\xff", 14);   /* no LF at all: only the NUL ends the probe */
         hb_printf(&r, "HTTP/1.1 %d X\r\n", status);
         if (body) hb_puts(&r, "Content-Length: 2\r\n\r\nno"); else if (!twoxx && status != 101) hb_puts(&r, "Content-Length: 0\r\n\r\n"); else hb_puts(&r, "\r\n");
         size_t rhead = r.n - (body ? 2 : 0);
         int http_resume = (payload == 1) && (status != 101);
         if (http_resume) hb_puts(&r, "HTTP/1.1 211 A\r\nContent-Length: 0\r\n\r\nHTTP/1.1 212 B\r\nContent-Length: 0\r\n\r\n");
-        else if (payload == 2 && (twoxx || status == 101)) hb_put(&r, "\x16\x03\x03\x00\x05hello\n\x01", 12);
+        else if (payload >= 2 && (twoxx || status == 101)) hb_put(&r, "\x16\x03\x03\x00\x05hello\n\x01", 12);
         else if (payload == 1 && status == 101) hb_put(&r, "\x81\x05hello", 7);
         /* refused CONNECT followed by non-HTTP bytes is outside the statement */
-        if (payload == 2 && !(twoxx || status == 101)) continue;
+        if (payload >= 2 && !(twoxx || status == 101)) continue;
         TT.head_len = head; TT.qlen = q.n; TT.rhead_len = rhead; TT.status = status; TT.payload = payload; TT.reqkind = reqkind;
-        TT.expect_tunnel = (status == 101) || (twoxx && payload == 2 && reqkind == 0);
+        TT.expect_tunnel = (status == 101) || (twoxx && payload >= 2 && reqkind == 0);
         TT.expect_http = http_resume && reqkind == 0;
         /* cut choices: none, or one cut in the +-3 window around the head end (both directions) */
         for (int qc = -4; qc <= 3; qc++) for (int rc = -4; rc <= 3; rc++) for (int ad = 0; ad < 2; ad++) {
@@ -605,7 +606,7 @@ static void mode_tunnel(int argc, char **argv) {
             if (rcut > 0 && rcut < r.n) { pr[0] = (pchunk) { r.p, (uint32_t) rcut }; pr[1] = (pchunk) { r.p + rcut, (uint32_t) (r.n - rcut) }; nr = 2; }
             else pr[0] = (pchunk) { r.p, (uint32_t) r.n };
             snprintf(TT.desc, sizeof TT.desc, "%s status=%d payload=%s body=%d qcut=%d rcut=%d auto_destroy=%d", reqkind ? "GET+Upgrade" : "CONNECT", status,
-                     payload == 0 ? "none" : payload == 1 ? "2 HTTP requests" : "TLS-like bytes", body, qc, rc, ad);
+                     payload == 0 ? "none" : payload == 1 ? "2 HTTP requests" : payload == 2 ? "TLS-like bytes" : "TLS-like bytes without LF", body, qc, rc, ad);
             if (id % 700 == 0) hx_emit_sample(TT.desc);
             tunnel_exec(pq, nq, pr, nr, head_chunk, ad);
         }
